@@ -218,6 +218,19 @@ def parse_linear(eng, e):
         elif dk == z3.Z3_OP_MUL:
             consts = [rat(c) for c in ch]
             non = [c for c, r in zip(ch, consts) if r is None]
+            ints = [c for c in non if z3.is_app(c) and c.decl().kind() == z3.Z3_OP_TO_REAL]
+            if ints and len(non) >= 2:
+                # integer * (even multiple of pi): vanishes modulo 2 pi
+                rest = [c for c in non if c not in ints]
+                f = Fraction(1)
+                for r in consts:
+                    if r is not None:
+                        f *= r
+                if len(rest) == 1:
+                    sub_atoms, sub_pi = parse_linear(eng, rest[0])
+                    if not sub_atoms and (sub_pi * f) % 2 == 0:
+                        return
+                raise _Fail()
             if len(non) != 1:
                 raise _Fail()
             f = Fraction(1)
@@ -261,6 +274,25 @@ def sincos_term(eng, st, e):
         pm = _pi_multiple(eng, pim)
         if pm is None:
             atoms = None
+    if atoms is None and z3.is_app(e) and e.decl().kind() == z3.Z3_OP_ITE:
+        c, x, y = e.children()
+        s1, c1 = sincos_term(eng, st, x)
+        s2, c2 = sincos_term(eng, st, y)
+        return z3.If(c, s1, s2), z3.If(c, c1, c2)
+    if atoms is None and z3.is_app(e) and e.decl().kind() in (z3.Z3_OP_ADD, z3.Z3_OP_SUB, z3.Z3_OP_UMINUS):
+        # sum containing a conditional or opaque part: expand structurally with the addition formulas
+        ch = e.children()
+        dk = e.decl().kind()
+        if dk == z3.Z3_OP_UMINUS:
+            s1, c1 = sincos_term(eng, st, ch[0])
+            return -s1, c1
+        acc = sincos_term(eng, st, ch[0])
+        for x in ch[1:]:
+            sx, cx = sincos_term(eng, st, x)
+            if dk == z3.Z3_OP_SUB:
+                sx = -sx
+            acc = _add(acc, (sx, cx))
+        return acc
     if atoms is None:
         # opaque angle: one atom for the whole term
         key = e.get_id()
